@@ -49,6 +49,8 @@ fn substitute(
                     }
                     let offset =
                         *journaled_sp - (*journaled_sp & bitmask.clone().try_to_i64().unwrap());
+                    // The substituted subtraction changes the stack pointer as well.
+                    *journaled_sp -= offset;
                     let sp = sp.clone();
                     *op = BinOpType::IntSub;
 
